@@ -10,8 +10,13 @@
 (*  {"t":2,"secret":3,"ids":[1,6],"out":"ok"|"refused"|"panic","vs":[3,1,4],"shares":[1,3],      *)
 (*   "ver":[[kind,i,shareThr,id,share,thr,vs,res],...],   kind: own | id | share | commit | shape *)
 (*   "rec":[[idx,res],...],              idx: indices into shares, res = -1 for an error return  *)
-(*   "recx":[[thr0,xs,ss,res],...],      ReConstruct on arbitrary (id, share) lists              *)
+(*   "recx":[[thr0,xs,ss,res],...],      ReConstruct on arbitrary (id, share) lists: two ids that *)
+(*                                       coincide mod q (x, x+q, x-q, x-2q), the dealt shares    *)
+(*                                       written with other representatives (id-q, share-q, ..)  *)
 (*   "x":0}                              1 marks a line corrupted by the self test (see TraceInv) *)
+(*                                                                                             *)
+(* All integers are written as the library received / returned them: ids, secrets and altered    *)
+(* values may be negative or >= Q (signed representatives, see FeldmanVSS.tla).                  *)
 (*                                                                                             *)
 (* A line is explained iff                                                                       *)
 (*   - the outcome of Create is the one FeldmanVSS!Create allows: "refused" exactly when Refuses, *)
